@@ -245,7 +245,9 @@ def parse_cbmc_json(text):
         if 'result' in e: results = e['result']
         elif 'messageText' in e:
             t = e['messageText']
-            if e.get('messageType') in ('ERROR', 'WARNING'): msgs.append(e['messageType'] + ': ' + t)
+            if e.get('messageType') in ('ERROR', 'WARNING') and 'provided with unwindset' not in t and 'pointer parameter types differ' not in t \
+               and 'conflicting return types' not in t:
+                msgs.append(e['messageType'] + ': ' + t)
             m = re.search(r'(\d+) variables, (\d+) clauses', t)
             if m: stats['sat_vars'] = int(m.group(1)); stats['sat_clauses'] = int(m.group(2))
             m = re.search(r'size of program expression: (\d+) steps', t)
